@@ -80,7 +80,7 @@ WriteOk(r, cs, w) ==
 \* while an exclusive-borrow collection is filled it writes its elements into the prepared free range; finalising moves
 \* them to the bump side of that range: these steps may write anywhere inside the content range of the current chunk
 \* (header included: a write range may straddle both) that is not a live block (live blocks are covered by the damage check)
-PrepWrite(r) == r.a \in {"prep_push", "prep_commit"}
+PrepWrite(r) == r.a \in {"prep_push", "prep_commit", "try_with"}   \* (alloc_try_with constructs the Result in free space first)
 InChunk(cs, lo, hi) == \E i \in 1..Len(cs) : lo >= cs[i].start /\ hi <= cs[i].start + cs[i].size
 
 C02_Viol(r) ==
@@ -113,13 +113,22 @@ C03_Viol(r) ==
 \*  reset() loop stops requesting chunks after finitely many rounds": steps of the repeated scope / of the last round
 C03_Again(r) ==
     \/ r.a = "alloc" /\ Has(r.args, "again") /\ r.args.again /\ (NAllocEv(r) > 0 \/ r.o.res # "ok")
+    \* the closure of alloc_try_with(_mut) returned Err without leaving allocations of its own: exactly as before the call
+    \/ r.a = "try_with" /\ ~r.args.ok /\ ~r.args.inner /\ r.o.res = "errval" /\
+         \/ r.o.stats[4] # r.o.pa
+         \/ r.o.damaged # <<>>
+         \/ IF r.o.pp = <<0, 0>>
+            THEN \* nothing had been allocated (no chunk) before: start of the first chunk
+                 r.o.cur > 1 \/ (r.o.cur = 1 /\ r.o.chunks[1][6] # 0)
+            ELSE r.o.cur = 0 \/ <<r.o.chunks[r.o.cur][1], r.o.chunks[r.o.cur][5]>> # r.o.pp
+    \/ r.a = "try_with" /\ r.o.res = "ok" /\ ~r.o.content_ok
 
 (***************************************************************************)
 (* C05  every chunk returned exactly once and fits                         *)
 (***************************************************************************)
 BaseEvs(r) == r.o.base
 MayRelease(r) == r.a \in {"reset", "drop", "final"}
-MayAcquire(r) == r.a \in {"ctor", "alloc", "grow", "shrink", "reserve", "enter", "prep_push"} \* enter: by_value / claim on unallocated
+MayAcquire(r) == r.a \in {"ctor", "alloc", "grow", "shrink", "reserve", "enter", "prep_push", "try_with"} \* enter: by_value / claim on unallocated
 FreeOk(gs, ev) ==
     \E g \in 1..Len(gs) : /\ gs[g].addr = ev[2] /\ ~gs[g].live /\ gs[g].frees = 1
                           /\ gs[g].align = ev[4] /\ ev[3] >= gs[g].req /\ ev[3] <= gs[g].size
@@ -297,6 +306,8 @@ Init == /\ done = TRUE
         /\ PrintT(<<"BAD_C01", {i \in Idx : C01_Viol(Rec[i])}>>)
         /\ PrintT(<<"BAD_C02", {i \in Idx : C02_Viol(Rec[i])}>>)
         /\ PrintT(<<"BAD_C03", {i \in Idx : C03_Viol(Rec[i]) \/ C03_Again(Rec[i])}>>)
+        /\ PrintT(<<"N_TRYWITH_ERR", Cardinality({i \in Idx : Rec[i].a = "try_with" /\ Rec[i].o.res = "errval" /\ ~Rec[i].args.inner})>>)
+        /\ PrintT(<<"N_VALUE", Cardinality({i \in Idx : Rec[i].a = "alloc" /\ Has(Rec[i].args, "fam") /\ Rec[i].args.fam # ""})>>)
         /\ PrintT(<<"N_AGAIN", Cardinality({i \in Idx : Rec[i].a = "alloc" /\ Has(Rec[i].args, "again") /\ Rec[i].args.again})>>)
         /\ PrintT(<<"BAD_C05", {i \in Idx : C05_Viol(Rec[i])}>>)
         /\ PrintT(<<"BAD_C10", {i \in Idx : C10_Viol(Rec[i])}>>)
